@@ -270,6 +270,12 @@ const noExcept = "\x00"
 func conflict(dest ...string) outcome { return outcome{Class: "conflict", Dest: dest} }
 func silent(dest ...string) outcome   { return outcome{Class: "silent", Dest: dest} }
 
+// mustFail: the call reports an error (of whatever kind); what it leaves in its destination is not compared. Used for a
+// directory copied into itself: cp fails ("cannot copy a directory into itself") after creating something or nothing.
+func mustFail(dest ...string) outcome {
+	return outcome{Class: "model", ConsultResult: true, OK: false, Dest: dest}
+}
+
 func okTree(t tree, dest ...string) outcome {
 	return outcome{Class: "model", ConsultResult: true, OK: true, ConsultTree: true, Tree: t, Dest: dest}
 }
@@ -552,6 +558,10 @@ func modelCopy(c call, t tree, s, d arg) outcome {
 			return withSrc(conflict(d.P), noExcept)
 		case ks != 'f' && (c.Op == "CopyToDirectory" || (ks == 'd' && c.A != c.B)):
 			// a directory into itself (Copy("a", "a/") resolves to a/a)
+			if ks == 'd' && c.A != c.B {
+				return withSrc(mustFail(d.P), join(d.P, base(s.P)))
+			}
+			// same spelling: the repository's "onto itself" early return (nil), as for files: result not consulted
 			return withSrc(silent(d.P), join(d.P, base(s.P)))
 		}
 		o := okTree(t, d.P)
@@ -621,7 +631,7 @@ func modelCopy(c call, t tree, s, d arg) outcome {
 		return withSrc(o, noExcept)
 	}
 	if under(q, s.P) { // a directory into itself
-		o := silent(d.P)
+		o := mustFail(d.P)
 		return withSrc(o, q)
 	}
 	if !n.cpTo(t, s.P, q) {
